@@ -90,6 +90,7 @@ PROPS = {
             dict(run=B + "VerifC08Floor", quick=dict(ops=1, keys=1, val9=0, compactions=2), thorough=dict(ops=1, keys=1, val9=0, compactions=3, interleave=0),
                  covers=["accepted", "older-request-accepted", "refused", "refused-limited", "refused-stream", "served", "done"]),
             dict(run=B + "VerifC08Race", quick=dict(preempt=1), thorough=dict(preempt=2), covers=["refused", "served", "done"]),
+            dict(run=B + "VerifC08TwoCompactions", quick=dict(preempt=2), thorough=dict(preempt=3), covers=["both-accepted", "done"], stress=10),
         ],
         bounds=dict(quick="1-write history, 2 compaction requests with unconstrained 64-bit revisions (increasing, repeated, decreasing, 0, above current), then an unlimited / limited / streamed range read at any revision; "
                           "race: 3 fixed key histories (tombstone, two versions, re-created) with symbolic values, one unlimited / paginated / streamed read at any older revision r racing one compaction at any c > r, "
@@ -210,9 +211,23 @@ PROPS = {
     ),
     "C20": dict(
         harnesses=[
-            dict(run="pkg/zzc20.VerifC20NoCrash", name="C20_single", quick=dict(requests=1, keylen=2), thorough=dict(requests=1, keylen=3), covers=["done"]),
-            dict(run="pkg/zzc20.VerifC20NoCrash", name="C20_pairs", quick=dict(requests=2, keymenu=1), thorough=dict(requests=2, keylen=1), covers=["done"]),
+            dict(run="pkg/zzc20.VerifC20NoCrash", name="C20_single", quick=dict(requests=1, keylen=2, roles=1), thorough=dict(requests=1, keylen=3, roles=1), covers=["done"]),
+            dict(run="pkg/zzc20.VerifC20NoCrash", name="C20_pairs", quick=dict(requests=2, keymenu=1, handlers=14), thorough=dict(requests=2, keylen=1, handlers=14), covers=["done"]),
+            # runs of other properties' harnesses at small bounds, only for the table of metric emissions
+            # (their own assertions are decided under their own property)
+            dict(run="pkg/server/service/revision.VerifC18Sync", name="C20_sites_sync", cover_only=True, validate=0),
+            dict(run="pkg/server.VerifC18Status", name="C20_sites_status", cover_only=True, validate=0),
+            dict(run="pkg/server/etcd.VerifC16WatchMapping", name="C20_sites_watch", params=dict(keys=1), cover_only=True, validate=0),
+            dict(run="pkg/zzc15.VerifC15Restart", name="C20_sites_election", params=dict(attempts=1, oraclefaults=0), cover_only=True, validate=0, no_native=True),
+            dict(run=B + "VerifC09Uncertain", name="C20_sites_retry", params=dict(ops=1, keys=1, val9=0, foreign=0, repairfaults=1), cover_only=True, validate=0),
+            dict(run=B + "VerifC07Compact", name="C20_sites_compact", params=dict(ops=2, keys=1, val9=0, delfaults=1, after=0), cover_only=True, validate=0),
+            dict(run=B + "VerifC05SlowConsumer", name="C20_sites_slow", params=dict(batches=3, reads=1, preempt=1), cover_only=True, validate=0),
+            dict(run=B + "VerifC01Seq", name="C20_sites_gauge", params=dict(ops=2, keys=1, val9=0, bases=2), cover_only=True, validate=0),
         ],
+        emit_table=True,
+        emit_exceptions={
+            "pkg/metrics/prometheus/grpc_server_options.go": "gRPC interceptors: the transport is outside every claim",
+        },
         bounds=dict(quick="every ordered pair of requests whose key is empty or an ordinary key (so that two emission sites of one metric — with the label sets of both the refused and the served shape — meet in one process), and one request through any of 14 handler groups of both APIs with keys/values/range ends of 0..2 arbitrary bytes (invalid UTF-8, bytes below the alphabet), symbolic 64-bit revisions and limits (zero, negative, far future), missing sub-messages, watches whose client goes away before or after the registration; real prometheus wrapper over a model of client_golang's panic rules; then a new watch, a create and a get must work and the watch must receive the create",
                     thorough="pairs with keys of 0..1 bytes; single requests with keys of 0..3 bytes"),
         outside="protobuf/gRPC decoding; resource exhaustion; more than 2 requests per process; metric emission sites not reached by these handlers (election callbacks, retry loop, compaction histories)",
